@@ -126,6 +126,36 @@ def sf_can_peek(ex, st, tk):
     return z3.Or(f["_index"] < z3.Length(f["_tokens"]), z3.Not(sf_em_cached(ex, st, tk)))
 
 
-SPEC_FUNCS = {"em_cached": sf_em_cached, "tk_ok": sf_tk_ok, "can_peek": sf_can_peek, "layout": sf_layout, "cache_wf": sf_cache_wf, "truthy": sf_truthy, "is_none": sf_is_none, "pos_le": sf_pos_le,
+def sf_cache_has(ex, st, c, m):
+    return z3.Select(c.present, lift(m))
+
+
+def sf_cache_end(ex, st, c, m):
+    return z3.Select(c.end, lift(m))
+
+
+def sf_cache_tree(ex, st, c, m):
+    return z3.Select(c.tree, lift(m))
+
+
+def sf_cache_ok(ex, st, c, tk):
+    """memo-cache invariant: every recorded end mark is a position inside the token cache that is not past ENDMARKER"""
+    m = z3.Int("co!q")
+    t = tk.fields["_tokens"]
+    return z3.ForAll([m], z3.Implies(z3.Select(c.present, m),
+                                     z3.And(z3.Select(c.end, m) >= 0, z3.Select(c.end, m) <= z3.Length(t),
+                                            z3.Or(z3.Select(c.end, m) < z3.Length(t), z3.Not(sf_em_cached(ex, st, tk))))))
+
+
+def sf_lr_cache_ok(ex, st, c):
+    """entries written by memoize_left_rec_wrapper: the end is never left of the start, and a recorded failure ends
+    where it starts (so replaying it is a no-op for the cursor)"""
+    m = z3.Int("lr!q")
+    return z3.ForAll([m], z3.Implies(z3.Select(c.present, m),
+                                     z3.And(z3.Select(c.end, m) >= m,
+                                            z3.Implies(z3.Not(z3_truthy(z3.Select(c.tree, m))), z3.Select(c.end, m) == m))))
+
+
+SPEC_FUNCS = {"lr_cache_ok": sf_lr_cache_ok, "cache_ok": sf_cache_ok, "cache_has": sf_cache_has, "cache_end": sf_cache_end, "cache_tree": sf_cache_tree, "em_cached": sf_em_cached, "tk_ok": sf_tk_ok, "can_peek": sf_can_peek, "layout": sf_layout, "cache_wf": sf_cache_wf, "truthy": sf_truthy, "is_none": sf_is_none, "pos_le": sf_pos_le,
               "endmarker_last": sf_endmarker_last, "endmarker_pulled": sf_endmarker_pulled, "gen_pos": sf_gen_pos,
               "gen_len": sf_gen_len, "gen_item": sf_gen_item, "prefix_of": sf_prefix_of, "tok_type": sf_tok_type}
